@@ -1,17 +1,21 @@
 """C06 — revocation secrets: compact, exact, released only when safe."""
 from lib.verif import *
 from props import chan_check
+from props import c06_points
 
 THEOREMS = [
     "C06_store_exact", "C06_store_stable", "C06_producer_accepted",
     "C06_reject_inconsistent", "C06_accept_criterion", "C06_leaf_unchecked",
     "C06_bounded", "C06_codec_roundtrip",
+    # own chain: slot -> index discipline (Shachain/SlotModel.v), see props/c06_points.py
+    "C06_own_points_no_gap", "C06_own_secrets_no_gap", "C06_own_chain_bounded", "C06_slot_index",
 ]
 MODULE = "LV.Shachain.Props"
 TARGETS = ["theories/Shachain/Props.vo", "theories/Shachain/Exec.vo",
-           "theories/Shachain/Examples.vo", "theories/Shachain/GenBridge.vo"]
+           "theories/Shachain/Examples.vo", "theories/Shachain/GenBridge.vo",
+           "theories/Shachain/SlotExec.vo"]
 WARM = [{"pkg": "shachain", "files": ["shachain/verif_store_test.go"]}] + chan_check.WARM + \
-    [{"pkg": "contractcourt", "files": ["contractcourt/verif_breachwatch_test.go"]}]
+    [{"pkg": "contractcourt", "files": ["contractcourt/verif_breachwatch_test.go"]}] + c06_points.WARM
 IMPORTS = ("From Coq Require Import List NArith.\nImport ListNotations.\n"
            "From LV Require Import Shachain.Exec.\n")
 
@@ -316,13 +320,37 @@ def run(ctx):
             import traceback
             bw["err"] = traceback.format_exc()
 
+    # fourth stage, also in a thread: every value of the node's OWN chain that leaves it
+    # (channel_ready incl. every re-send path, revoke_and_ack, channel_reestablish) carries the
+    # index its slot requires — props/c06_points.py; its violations are reported below, from
+    # this thread (Ctx.violation numbers the replay files)
+    pt = {"res": None, "viol": [], "err": None}
+
+    def points_stage():
+        try:
+            pt["res"], pt["viol"] = c06_points.run_stage(ctx)
+        except Exception:
+            import traceback
+            pt["err"] = traceback.format_exc()
+
     th = threading.Thread(target=breachwatch_stage)
+    th2 = threading.Thread(target=points_stage)
     th.start()
+    th2.start()
     try:
         _store_run(ctx)
         chan_check.run_prop(ctx, "C06", nested=True)
     finally:
         th.join()
+        th2.join()
+    if pt["err"]:
+        ctx.violation("harness_failed", "points stage crashed", {"traceback": pt["err"]},
+                      signature="points-stage-crashed", failing_input=False)
+    for v in pt["viol"]:
+        ctx.violation(v["kind"], v["name"], v["detail"], signature=v["signature"],
+                      failing_input=v["failing_input"])
+    if pt["res"] is not None:
+        ctx.cov["points_stage"] = pt["res"]
     if bw["err"]:
         ctx.violation("harness_failed", "breachwatch stage crashed", {"traceback": bw["err"]},
                       signature="breachwatch-stage-crashed", failing_input=False)
